@@ -472,7 +472,7 @@ class C14(Check):
         for bits in rng:
             rows = [[s, (bits >> i) & 1] for i, s in enumerate(subs3)]
             out.append({"k": "T", "rows": rows, "perms": [[7, 6, 5, 4, 3, 2, 1, 0], [2, 1, 3, 0, 6, 7, 5, 4]]})
-        for _ in range(400 if quick else 12000):
+        for _ in range(400 if quick else 10000):
             out.append(self.gen_table())
         # edge / malformed stream: empty table, all-zero tables, only the empty set, repeated names in a
         # row, repeated keys, names with punctuation, digits first, blanks and non-ASCII letters
@@ -494,7 +494,7 @@ class C14(Check):
             out.append({"k": "T", "rows": rows, "perms": perms})
         for _ in range(14 if quick else 260):
             out.append(self.gen_codebase())
-        for _ in range(150 if quick else 3000):
+        for _ in range(150 if quick else 2500):
             c = self.gen_codebase()
             nev = sum(len(p[2]) for p in c["plats"])
             perms = []
